@@ -463,6 +463,50 @@ class HArmNM(HookMix, NodeMixin):
         return _rec().hook("post_detach(the hook of the class although the pre-hook armed one on the instance)", self, parent)
 
 
+class HArmLM(HookMix, LightNodeMixin):
+    """As HArmNM, for a LightNodeMixin class whose instances have a dict, and for the four *_children hooks as well: each
+    pre-hook arms the matching post-hook on the instance."""
+
+    separator = "/"
+
+    def __init__(self, name):
+        self.name = name
+
+    def _arm(self, pre, post, arg):
+        out = _rec().hook(pre, self, arg)
+
+        def armed(arg_):
+            delattr(self, "_" + post)
+            return _rec().hook(post, self, arg_)
+
+        setattr(self, "_" + post, armed)
+        return out
+
+    def _pre_attach(self, parent):
+        return self._arm("pre_attach", "post_attach", parent)
+
+    def _pre_detach(self, parent):
+        return self._arm("pre_detach", "post_detach", parent)
+
+    def _pre_attach_children(self, children):
+        return self._arm("pre_attach_children", "post_attach_children", children)
+
+    def _pre_detach_children(self, children):
+        return self._arm("pre_detach_children", "post_detach_children", children)
+
+    def _post_attach(self, parent):
+        return _rec().hook("post_attach(the hook of the class although the pre-hook armed one on the instance)", self, parent)
+
+    def _post_detach(self, parent):
+        return _rec().hook("post_detach(the hook of the class although the pre-hook armed one on the instance)", self, parent)
+
+    def _post_attach_children(self, children):
+        return _rec().hook("post_attach_children(the hook of the class although the pre-hook armed one on the instance)", self, children)
+
+    def _post_detach_children(self, children):
+        return _rec().hook("post_detach_children(the hook of the class although the pre-hook armed one on the instance)", self, children)
+
+
 class HLM(HookMix, LightNodeMixin):
     __slots__ = ("name",)
     separator = "/"
@@ -609,6 +653,7 @@ CLASSES = {
     "LateSuperNM": (lambda l: _nodes.LateSuperNM(_name(l)), "NM", False),
     "LockNM": (lambda l: LockNM(_name(l)), "NM", False),
     "HArmNM": (lambda l: HArmNM(_name(l)), "NM", True),
+    "HArmLM": (lambda l: HArmLM(_name(l)), "LM", True),
     "HCopyNM": (lambda l: HCopyNM(_name(l)), "NM", True),
     "HCopyLM": (lambda l: HCopyLM(_name(l)), "LM", True),
     "HCoopNM": (lambda l: HCoopNM(_name(l)), "NM", True),
